@@ -63,6 +63,7 @@ type Case struct {
 	PolygonRel          bool   // relation parents are type=multipolygon (orientation code path) instead of route
 	LateBase            bool   // Pre regime only: timestamps in 2015 (no commit info although after CommitInfoStart)
 	Reject              []bool // per child: ChildFilter returns false (nil = no filter)
+	SharedIDs           bool   // relation parents: child ids are unique per kind only (node/1 and way/1 both occur)
 	FailChild           int    // k > 0: the data source fails with ErrBackend (not a not-found error) when the history of child k-1 is requested
 	TickMS              int    // Commit regime: length of one time unit in milliseconds (0 = 1000); sub-second units give commit instants that differ within one wall-clock second
 }
@@ -259,8 +260,14 @@ func (c *Case) BuildDS() *DS {
 			case 1:
 				w := &osm.Way{ID: osm.WayID(ch.ID), Version: v.Ver, Visible: v.Visible, Timestamp: ts, Committed: cm, ChangesetID: osm.ChangesetID(v.CS)}
 				nodes := osm.WayNodes{{ID: 9001}, {ID: 9002}, {ID: 9003}}
+				if c.PolygonRel {
+					// located nodes, a different place per way: as outer/inner
+					// members of a multipolygon parent the ways get an orientation
+					x := float64(ch.ID) * 3
+					nodes = osm.WayNodes{{ID: 9001, Version: 1, Lon: x + 1, Lat: 1}, {ID: 9002, Version: 1, Lon: x + 2, Lat: 1}, {ID: 9003, Version: 1, Lon: x + 1, Lat: 2}}
+				}
 				if v.Rev {
-					nodes = osm.WayNodes{{ID: 9003}, {ID: 9002}, {ID: 9001}}
+					nodes[0], nodes[2] = nodes[2], nodes[0]
 				}
 				w.Nodes = nodes
 				d.Ways[w.ID] = append(d.Ways[w.ID], w)
@@ -305,6 +312,9 @@ func (c *Case) BuildRelations() osm.Relations {
 		for j, ci := range p.Refs {
 			ch := c.Children[ci]
 			m := osm.Member{Type: []osm.Type{osm.TypeNode, osm.TypeWay, osm.TypeRelation}[ch.Kind], Ref: ch.ID, Role: fmt.Sprintf("r%d", j)}
+			if c.PolygonRel && ch.Kind == 1 {
+				m.Role = []string{"outer", "inner"}[j%2]
+			}
 			if j < len(p.PreAnn) && p.PreAnn[j] {
 				m.Version = PreAnnotatedVersion
 			}
@@ -346,6 +356,17 @@ func Gen(t *rapid.T, o Opts) Case {
 	c.Shuffle = int64(rapid.IntRange(0, 1000).Draw(t, "shuffle"))
 	c.PolygonRel = !c.ParentIsWay && rapid.IntRange(0, 2).Draw(t, "polygonRel") == 0
 	c.AsChildren = rapid.IntRange(0, 3).Draw(t, "asChildren") == 0
+	if !c.ParentIsWay && rapid.IntRange(0, 2).Draw(t, "sharedIDs") == 0 {
+		// ids are unique per kind only: node/1, way/1 and relation/1 are three
+		// different elements
+		next := [3]int64{}
+		for i := range c.Children {
+			k := c.Children[i].Kind
+			next[k]++
+			c.Children[i].ID = next[k]
+		}
+		c.SharedIDs = true
+	}
 	if o.Faults && len(c.Children) > 0 && rapid.IntRange(0, 7).Draw(t, "fault") == 0 {
 		c.FailChild = rapid.IntRange(1, len(c.Children)).Draw(t, "failChild")
 	}
